@@ -301,8 +301,11 @@ fn sweep_type(lo: i64, hi: i64, ty: &str) -> Vec<J> {
         let mut cur: Option<(Key, i64, i64)> = None;
         let mut flush = |c: &Option<(Key, i64, i64)>| {
             if let Some((k, from, to)) = c {
-                evs.push(json!({"e": "reset", "k": "range", "inp": {"ty": ty, "form": form, "from": from, "to": to, "src": src},
-                    "ty": ty, "form": form, "src": src, "from": from, "to": to, "cls": k.0,
+                // a stretch never crosses zero; it is logged as sign, the digits of its end nearest to zero and small offsets
+                // (x = sg * (base + k), k = kfrom..kto), so that stretches beyond 32 bits can be validated
+                let (sg, base) = if *from >= 0 { (1, *from) } else { (-1, -*to) };
+                evs.push(json!({"e": "reset", "k": "range", "inp": {"ty": ty, "form": form, "from": from.to_string(), "to": to.to_string(), "src": src},
+                    "ty": ty, "form": form, "src": src, "sg": sg, "base": crate::ov::digits_of(&base.to_string()), "kfrom": 0, "kto": to - from, "cls": k.0,
                     "acc": serde_json::from_str::<J>(&k.1).unwrap(), "others": serde_json::from_str::<J>(&k.2).unwrap(),
                     "exact": k.3, "names_recv": k.4, "zero": k.5}));
             }
@@ -328,7 +331,7 @@ fn sweep_type(lo: i64, hi: i64, ty: &str) -> Vec<J> {
             };
             let k = sweep_key(&res, x as i128);
             match &mut cur {
-                Some((ck, from, to)) if *ck == k && *to + 1 == x && x - *from < 4000 => *to = x,
+                Some((ck, from, to)) if *ck == k && *to + 1 == x && x - *from < 4000 && (x >= 0) == (*from >= 0) => *to = x,
                 _ => {
                     flush(&cur);
                     cur = Some((k, x, x));
@@ -361,7 +364,8 @@ pub fn main(args: &[String]) {
                 if rec.get("form").is_some() {
                     // replay of a range event
                     let ty = rec["ty"].as_str().unwrap().to_string();
-                    sweep(rec["from"].as_i64().unwrap(), rec["to"].as_i64().unwrap(), &[ty.as_str()], &mut out);
+                    let num = |v: &J| v.as_i64().unwrap_or_else(|| v.as_str().unwrap().parse::<i64>().unwrap());
+                    sweep(num(&rec["from"]), num(&rec["to"]), &[ty.as_str()], &mut out);
                 } else {
                     emit_point(rec["ty"].as_str().unwrap(), &ov_of_rec(&rec["v"]), &mut out);
                 }
